@@ -425,7 +425,9 @@ def _check_native(mode):
                    "two-qubit gates": lambda op: isinstance(op, GateOperation) and len(op.qubit_indices) == 2,
                    "phases only": lambda op: isinstance(op, MultiPhaseOperation)}
         mp = lambda k: MultiPhaseOperation(tuple(0.1 * (i + 1) * (k + 1) for i in range(8)))
-        circuits = [[mp(0), CNOT(0, 1), mp(1)], [mp(0)], [mp(0), mp(1), H(0)], [H(0), mp(0), CNOT(0, 2), RX(0.3)(1), mp(1), SWAP(1, 2), mp(2)],
+        mpa = lambda k: MultiPhaseOperation(np.array([0.1 * (i + 1) * (k + 1) for i in range(8)]))        # the same angles held in a float array
+        ma0 = mpa(0)
+        circuits = [[mp(0), CNOT(0, 1), mp(1)], [mp(0)], [mp(0), mp(1), H(0)], [mpa(0), mpa(1), H(0), mpa(2), mp(0), mpa(1)], [ma0, mp(1), H(1), ma0, mpa(2), ma0], [H(0), mp(0), CNOT(0, 2), RX(0.3)(1), mp(1), SWAP(1, 2), mp(2)],
                     [H(1), CNOT(1, 0), mp(0), H(2), mp(1), mp(2), T(0), CNOT(2, 1)], [RX(0.4)(0), mp(0), RY(0.7)(0), mp(1), CNOT(0, 1), mp(0), H(1)]]
         for name, native in natives.items():
             for ops in circuits:
@@ -435,9 +437,13 @@ def _check_native(mode):
                     W = (embed(np.array(op.gate.matrix.tolist(), dtype=complex), op.qubit_indices, 3) if hasattr(op, "gate") else np.diag(np.exp(1j * np.array(op.params, dtype=float)))) @ W
                 Sim = make(native)
                 sim = Sim()
-                a = np.array(sim.get_wavefunction(c).amplitudes, dtype=complex).ravel()
-                if not np.allclose(a, W[:, 0], atol=1e-9):
-                    return False, f"simulator whose native set is '{name}', circuit {c}: state differs from the ordered product (max deviation {abs(a - W[:, 0]).max():.3g})"
+                params0 = [np.array(op.params, dtype=float).copy() for op in ops if not hasattr(op, "gate")]
+                for call in range(3):        # the same circuit evaluated again gives the same state: evaluating never rewrites an operation
+                    a = np.array(sim.get_wavefunction(c).amplitudes, dtype=complex).ravel()
+                    if not np.allclose(a, W[:, 0], atol=1e-9):
+                        return False, f"simulator whose native set is '{name}', circuit {c}, call #{call + 1}: state differs from the ordered product (max deviation {abs(a - W[:, 0]).max():.3g})"
+                if any(not np.array_equal(p0, np.array(op.params, dtype=float)) for p0, op in zip(params0, [op for op in ops if not hasattr(op, "gate")])):
+                    return False, f"simulator whose native set is '{name}': evaluating {c} changed the angles of one of its phase operations"
                 if sim.n_circuits_executed != Sim.runs:
                     return False, f"simulator whose native set is '{name}', circuit {c}: n_circuits_executed = {sim.n_circuits_executed} but {Sim.runs} native segments were run"
         return True, "ok"
